@@ -496,15 +496,46 @@ def local_op(l):
     return {'k': 'copy', 'pl': {'l': l, 'p': []}}
 
 
+# product iterators: every item is a tuple (x, y) with x from the first and y from the second iterator, every combination once
+#   a.cartesian_product(b)      (itertools; also what `iproduct!(a, b)` expands to)
+# (`a.flat_map(|x| b.map(move |y| (x, y)))` is turned into the loop nest by the normal form)
+PRODUCT_ITEMS = ('cartesian_product',)
+
+
+def product_args(tree):
+    """[left iterator tree, right iterator tree] if the iterator tree is a product iterator (looked at through into_iter /
+    by_ref / references), else None"""
+    t = tree
+    for _ in range(6):
+        t = T.strip_wrappers(t)
+        if t[0] != 'call' or not t[3]: return None
+        if t[1] in PRODUCT_ITEMS and len(t[3]) == 2: return [t[3][0], t[3][1]]
+        if t[1] in ('into_iter', 'by_ref', 'iter'): t = t[3][0]; continue
+        return None
+    return None
+
+
 def expr_params(ctx, b, e):
-    """parameters the leaves of an expression tree derive from"""
+    """parameters the leaves of an expression tree derive from.  Component k of an item of a product iterator derives from
+    the k-th factor only."""
+    k = e[0]
+    if k == 'place':
+        if 1 <= e[1] <= b.argc: return {e[1]}
+        return set(ctx.S.backslice(b, [node_of(e[3])] if len(e) > 3 else [e[1]]).params)
+    if k == 'local': return set(ctx.S.backslice(b, [e[1]]).params) if e[1] >= 0 else set()
+    if k == 'proj':
+        inner = e[1]
+        if inner[0] == 'call' and inner[1] == 'next' and inner[3]:
+            pa = product_args(inner[3][0])
+            tf = [f for a, f in e[2] if a == 'tuple']
+            if pa and tf and tf[0].isdigit() and int(tf[0]) < 2: return expr_params(ctx, b, pa[int(tf[0])])
+        return expr_params(ctx, b, inner)
     ps = set()
-    for x in T.expr_walk(e):
-        if x[0] == 'place':
-            if 1 <= x[1] <= b.argc: ps.add(x[1])
-            else: ps |= ctx.S.backslice(b, [node_of(x[3])] if len(x) > 3 else [x[1]]).params
-        elif x[0] == 'local' and x[1] >= 0:
-            ps |= ctx.S.backslice(b, [x[1]]).params
+    for x in e[1:]:
+        if isinstance(x, tuple) and x and isinstance(x[0], str): ps |= expr_params(ctx, b, x)
+        elif isinstance(x, list):
+            for y in x:
+                if isinstance(y, tuple) and y and isinstance(y[0], str): ps |= expr_params(ctx, b, y)
     return ps
 
 
@@ -1609,6 +1640,11 @@ def every_pair(ctx, b, sites):
         if s['kind'] != 'add': continue
         Li = innermost_loop(loops, s['bb'])
         if Li is None: continue
+        # one loop over a product iterator of both operands' terms is the loop nest
+        pa = product_args(_expr_env(b, Li['call'].args[0], {}, set(), 24, frozenset()))
+        if pa and not restricted(Li['it']):
+            p0, p1 = expr_params(ctx, b, pa[0]), expr_params(ctx, b, pa[1])
+            if (p0, p1) in (({1}, {2}), ({2}, {1})) and loop_merges(b, Li, sites)[0]: return True
         outer = [L for L in loops if L is not Li and Li['blocks'] < L['blocks']]
         for Lo in outer:
             pi = Li['it'].params; po = Lo['it'].params
